@@ -335,8 +335,20 @@ def run_pool_case(case, rec, which):
             rec.count("storages_with_repeated_time_stamps")
         else:
             tlist = [float(i) * 0.5 for i in range(len(fields))]
-        storage = MemoryStorage.from_fields(times=tlist, fields=fields)
         kw = {"refine": case["opts"]["refine"], "progress": False}
+        if case["sched_seed"] % 4 == 1 and fields:
+            # frames as an 8-bit camera stores them, kept in single precision, and a threshold that is one of the grey
+            # levels (k/255, not representable in single precision): pixels exactly on the level must be treated alike
+            # by the serial analysis and by the worker processes
+            from pde import ScalarField
+
+            fields = [ScalarField(f.grid, (np.round(np.clip(f.data, 0, 1) * 255) / 255).astype(np.float32), dtype=np.float32) for f in fields]
+            vals = np.unique(np.concatenate([f.data.ravel() for f in fields]))
+            mid = vals[(vals > 0.1) & (vals < 0.9)]
+            if len(mid):
+                kw["threshold"] = float(round(float(mid[len(mid) // 2]) * 255)) / 255
+                rec.count("single_precision_storages_with_a_grey_level_as_threshold")
+        storage = MemoryStorage.from_fields(times=tlist, fields=fields)
         if case["opts"].get("refine_args"):
             kw["refine_args"] = json.loads(json.dumps(case["opts"]["refine_args"]))
 
